@@ -2,7 +2,7 @@
    Statements only; every proof is [exact lemma]. *)
 From Coq Require Import NArith List Bool.
 From Coq.Strings Require Import Byte.
-From LOF Require Import Base.Bytes Model.Wire Model.Build Proofs.WireP Proofs.BuildP Proofs.NormP.
+From LOF Require Import Base.Bytes Model.Wire Model.Build Proofs.WireP Proofs.BuildP Proofs.NormP Model.BuildSw Proofs.HelloBaseP.
 Import ListNotations.
 Open Scope N_scope.
 
@@ -47,3 +47,9 @@ Theorem C06_child_intact : forall k vs l1 x l2,
   exists pre post, wire (T k vs (l1 ++ x :: l2)) = pre ++ wire x ++ post.
 Proof. exact child_intact. Qed.
 Print Assumptions C06_child_intact.
+
+(* ---- hello with any list of version-bitmap elements ([hello_tree xid es]: the elements and
+   their bitmaps are exported fields, so a controller can build any such list): each element is
+   padded to 64 bits and its length field counts header and bitmaps (fix D46) ---- *)
+Theorem C06_built_hello_consistent : forall xid es, consistent (hello_tree xid es) = true.
+Proof. exact hello_consistent. Qed.
